@@ -142,6 +142,9 @@ class TimeBase(np.ndarray):
             raise exceptions.UnknownSystemError(f"Format {fmt!r} unknown. Use one of {formats}")
 
         # Convert to numpy array and read format
+        if isinstance(val, np.ndarray) and val.ndim == 0:
+            # A single epoch (for instance when an element of an array is copied): the formats expect the bare value
+            val = val.item()
         fmt_values = cls._formats()[fmt](val, val2, cls.scale)
 
         val = np.asarray(val)
